@@ -1,4 +1,5 @@
 import SrProofs.Pool
+import SrProofs.PageNames
 
 /-!
 # C08 — results do not depend on thread count, paging or progress options  (PARTIAL)
@@ -18,7 +19,12 @@ every number of sub-problems and every network shape:
 * `solve_schedule_independent` – the composition: tube data after `solve` are those of
                                   `subproblems.map solveAll`, whatever `nthreads` and the schedules;
 * `dispatch_total`, `dispatch_reachable` – the heuristic is a total function, both branches occur;
-* `life_schedule_independent`  – `min` over the gathered per-tube lives.
+* `life_schedule_independent`  – `min` over the gathered per-tube lives;
+* `page_index_injective`, `page_file_injective`, `page_file_eq`, `page_files_distinct` – with
+  `page=True` (model `SrModel.PageNames`) different (tube, dictionary, field) triples never open
+  the same `np.memmap` file, for every receiver layout and all field names — with the one exception
+  that `add_axial_results(f)` (suffix `" _axial"`) and `add_blank_axial_results(f + " ")` (suffix
+  `"_axial"`) meet (`page_file_collision`).
 
 NOT covered (the larger part of the property; see `harness/c08.py` for the differential
 executions that carry it): that a worker process computes the same function as the parent
@@ -211,6 +217,102 @@ theorem life_schedule_independent {T L} (single : T → L) (mn : L → L → L) 
     (order : List Nat) (ho : ValidOrder 1 tubes order) (x : L) :
     (gather single 1 tubes order).foldl mn x = (tubes.map single).foldl mn x := by
   rw [gather_eq_map single 1 (by omega) tubes order ho]
+
+/-! ### paging file names (`SrModel.PageNames`) -/
+
+section paging
+open SrModel.PageNames
+
+/-- **page_index_injective.** `Receiver.set_paging` numbers the tubes by their position in
+`Receiver.tubes`: for every list of panel sizes the numbers of the valid positions, taken in the
+order of `Receiver.tubes`, are `0, 1, …, ntubes-1`; the valid positions are exactly the members of
+`allTubes`; and two valid positions with the same number are the same position. -/
+theorem page_index_injective (sizes : List Nat) :
+    (allTubes sizes).map (fun pk => tubeIndex sizes pk.1 pk.2) = List.range sizes.sum ∧
+    (∀ p k, (p, k) ∈ allTubes sizes ↔ p < sizes.length ∧ k < sizes.getD p 0) ∧
+    (∀ p k, p < sizes.length → k < sizes.getD p 0 →
+      (allTubes sizes)[tubeIndex sizes p k]? = some (p, k)) ∧
+    (∀ p k p' k', p < sizes.length → k < sizes.getD p 0 → p' < sizes.length → k' < sizes.getD p' 0 →
+      tubeIndex sizes p k = tubeIndex sizes p' k' → p = p' ∧ k = k') :=
+  ⟨allTubes_map_tubeIndex sizes, mem_allTubes sizes, allTubes_getElem?_tubeIndex sizes,
+    fun p k p' k' hp hk hp' hk' h => tubeIndex_injective sizes p k p' k' hp hk hp' hk' h⟩
+
+/-- **page_file_injective.** `str(i) + "_" + field + suffix + ".dat"` with the suffixes `"_node"`,
+`"_quad"`, `" _axial"` of the data writers determines the tube number, the dictionary and the field
+name — for all field names (any Unicode string, also names containing `_`, digits, the other
+suffixes or `.dat`), no hypothesis. -/
+theorem page_file_injective (i i' : Nat) (d d' : Dict) (f f' : String)
+    (h : pageFile i d f = pageFile i' d' f') : i = i' ∧ d = d' ∧ f = f' :=
+  pageFile_injective i i' d d' f f' h
+
+/-- **page_file_eq.** With both writers of every dictionary (`add_*_results`, `add_blank_*_results`):
+equal file names force the same tube number and dictionary, and the same field name unless the
+dictionary is `axial_results`, the writers differ and the blank-written name is the data-written
+name plus one space. -/
+theorem page_file_eq (i i' : Nat) (d d' : Dict) (w w' : Writer) (f f' : String)
+    (h : fileOf i d w f = fileOf i' d' w' f') :
+    i = i' ∧ d = d' ∧ (f = f' ∨ (d = .axial ∧
+      ((w = .data ∧ w' = .blank ∧ f' = f ++ " ") ∨ (w = .blank ∧ w' = .data ∧ f = f' ++ " ")))) :=
+  fileOf_eq i i' d d' w w' f f' h
+
+/-- … so with names that do not end in a space the file name determines the triple, whoever wrote -/
+theorem page_file_injective_writers (i i' : Nat) (d d' : Dict) (w w' : Writer) (f f' : String)
+    (hf : ∀ g : String, f ≠ g ++ " ") (hf' : ∀ g : String, f' ≠ g ++ " ")
+    (h : fileOf i d w f = fileOf i' d' w' f') : i = i' ∧ d = d' ∧ f = f' :=
+  fileOf_injective i i' d d' w w' f f' hf hf' h
+
+/-- **page_file_collision.** The exception is real: for every tube and every name `f`,
+`add_axial_results(f, …)` and `add_blank_axial_results(f + " ")` open the same file. -/
+theorem page_file_collision (i : Nat) (f : String) :
+    fileOf i .axial .data f = fileOf i .axial .blank (f ++ " ") :=
+  fileOf_collision i f
+
+/-- **page_files_distinct.** For any receiver layout `sizes` and any fields per tube (`keys p k` =
+(dictionary, writer, name) of the arrays of tube `k` of panel `p`): if inside each tube the
+(dictionary, name) pairs are distinct — they are dictionary keys — and no tube has both a
+data-written axial field `f` and a blank-written axial field `f ++ " "`, then the list of all paging
+file names of the receiver has no duplicates. -/
+theorem page_files_distinct (sizes : List Nat) (keys : Nat → Nat → List SrModel.PageNames.Key)
+    (hk : ∀ p k, p < sizes.length → k < sizes.getD p 0 →
+      ((keys p k).map (fun x => (x.1, x.2.2))).Nodup)
+    (hs : ∀ p k f, p < sizes.length → k < sizes.getD p 0 →
+      (Dict.axial, Writer.data, f) ∈ keys p k → (Dict.axial, Writer.blank, f ++ " ") ∉ keys p k) :
+    (allFiles sizes keys).Nodup :=
+  allFiles_nodup sizes keys hk hs
+
+/-- non-vacuity: two panels of 2 and 1 tubes, every tube with the fields srlife writes in a thermal
+and structural solve; the three tubes get the numbers 0, 1, 2 -/
+example : allFiles [2, 1] (fun _ _ => [(.results, .data, "temperature"), (.quadrature, .blank, "stress_xx"),
+      (.axial, .blank, "fluid_temperature")]) =
+    ["0_temperature_node.dat", "0_stress_xx_quad.dat", "0_fluid_temperature_axial.dat",
+     "1_temperature_node.dat", "1_stress_xx_quad.dat", "1_fluid_temperature_axial.dat",
+     "2_temperature_node.dat", "2_stress_xx_quad.dat", "2_fluid_temperature_axial.dat"] := by decide
+
+/-- the space of the data writer of `axial_results` -/
+example : pageFile 12 .axial "htc" = "12_htc _axial.dat" ∧ fileOf 12 .axial .blank "htc" = "12_htc_axial.dat" := by
+  decide
+
+/-- field names that look like other files' parts do not collide: `"1_x"` in tube 0 and `"x"` in
+tube 1 give `0_1_x_node.dat` and `1_x_node.dat`… -/
+example : pageFile 0 .results "1_x" ≠ pageFile 1 .results "x" := by decide
+/-- … and `"x_node"` in `quadrature_results` is not `"x"` in `results` -/
+example : pageFile 0 .quadrature "x_node" ≠ pageFile 0 .results "x" := by decide
+
+/-- the hypothesis of `page_files_distinct` matters: one tube with the axial fields `"x"` (data) and
+`"x "` (blank) -/
+example : ¬ (allFiles [1] (fun _ _ => [(.axial, .data, "x"), (.axial, .blank, "x ")])).Nodup := by decide
+
+/-- **seeded regression `C08_a`** (tubes numbered inside each panel, sizes `[1, 1]`): two different
+tubes get the same number, hence the same files -/
+example : wrongPerPanel [1, 1] 0 0 = wrongPerPanel [1, 1] 1 0 ∧ tubeIndex [1, 1] 0 0 ≠ tubeIndex [1, 1] 1 0 := by
+  decide
+
+/-- **seeded regression `X08_e`** (`panel_index * panel.ntubes + position`, sizes `[2, 1]`): tube 1 of
+panel 0 and tube 0 of panel 1 both get number 1 -/
+example : wrongPanelTimes [2, 1] 0 1 = wrongPanelTimes [2, 1] 1 0 ∧
+    tubeIndex [2, 1] 0 1 ≠ tubeIndex [2, 1] 1 0 := by decide
+
+end paging
 
 /-! ### non-vacuity -/
 
